@@ -1,0 +1,17 @@
+//go:build verif
+
+// Contracts for the deductive verifier in /verif (comment-only file; no code).
+// Syntax: see /verif/DESIGN.md section 2.2.
+
+package mqtt
+
+// ---- C25: effective expiry is the smaller non-zero of the two intervals ----
+// verif:def min0(a int64, b int64) int64 = a == 0 ? b : (b == 0 ? a : (a < b ? a : b))
+// verif:func mqtt.minimum
+//@ ensures smaller-nonzero: m == min0(a, b)
+
+// ---- C37: the read deadline is one and a half keepalive periods after the current time ----
+// verif:func mqtt.Client.refreshDeadline
+//@ modifies cl.Net.Conn.deadline, lastNow
+//@ ensures one-and-a-half-keepalive: keepalive > 0 && cl.Net.Conn != nil ==> durOf(lastNow, cl.Net.Conn.deadline) == 1500000000 * int64(keepalive)
+//@ ensures zero-disables: keepalive == 0 && cl.Net.Conn != nil ==> cl.Net.Conn.deadline == zerovalue("time.Time")
